@@ -181,6 +181,11 @@ func fullImage(d dbm.DB) map[string]string {
 // genState builds a state with accounts, identities carrying optional fields,
 // contract stores with empty values and long keys, over several versions.
 func genState(t *rapid.T) (*state.StateDB, uint64, string) {
+	s, _, versions, desc := genStateDB(t)
+	return s, versions, desc
+}
+
+func genStateDB(t *rapid.T) (*state.StateDB, dbm.DB, uint64, string) {
 	db := dbm.NewMemDB()
 	s, err := state.NewLazy(db)
 	if err != nil {
@@ -248,7 +253,7 @@ func genState(t *rapid.T) (*state.StateDB, uint64, string) {
 		}
 		desc += "|"
 	}
-	return s, uint64(versions), desc
+	return s, db, uint64(versions), desc
 }
 
 func stateDump(s *state.StateDB) string {
@@ -310,6 +315,48 @@ func leftBehind(db dbm.DB) []string {
 }
 
 func checkImport(t *rapid.T, what string, archive []byte, height uint64, root common.Hash, wantDump string) (accepted bool) {
+	return checkImportDeep(t, what, archive, height, root, wantDump, nil)
+}
+
+// deepCheck is what an accepted import is checked against beyond root and records (see contd_test.go).
+type deepCheck struct {
+	pristine []byte                         // the archive as exported
+	ref      func() (*state.StateDB, error) // a private copy of the exporting state at the exported version
+	leaves   [][]byte                       // record keys of the exported state
+	gaps     [][2][]byte                    // (genuine, altered) keys of inner nodes the damage is known to have touched
+}
+
+func newDeepCheck(t *rapid.T, pristine []byte, ref func() (*state.StateDB, error)) *deepCheck {
+	nodes, err := archiveNodes(pristine)
+	if err != nil {
+		t.Fatalf("own archive does not decode: %v", err)
+	}
+	return &deepCheck{pristine: pristine, ref: ref, leaves: leafKeys(nodes)}
+}
+
+func (d *deepCheck) withGap(genuine, altered []byte) *deepCheck {
+	c := *d
+	c.gaps = [][2][]byte{{genuine, altered}}
+	return &c
+}
+
+// archiveDiff names the first node in which two archives differ.
+func archiveDiff(got, want []byte) string {
+	g, err1 := archiveNodes(got)
+	w, err2 := archiveNodes(want)
+	if err1 != nil || err2 != nil {
+		return fmt.Sprintf("(archives do not decode: %v, %v)", err1, err2)
+	}
+	for i := 0; i < len(g) && i < len(w); i++ {
+		if !bytes.Equal(g[i].Key, w[i].Key) || !bytes.Equal(g[i].Value, w[i].Value) || g[i].Height != w[i].Height || g[i].Version != w[i].Version || g[i].EmptyValue != w[i].EmptyValue {
+			return fmt.Sprintf("node #%d of %d: new export has {height %d version %d key %x value %x}, original archive has {height %d version %d key %x value %x}",
+				i, len(w), g[i].Height, g[i].Version, g[i].Key, g[i].Value, w[i].Height, w[i].Version, w[i].Key, w[i].Value)
+		}
+	}
+	return fmt.Sprintf("new export has %d nodes, original archive %d (framing or node count differs)", len(g), len(w))
+}
+
+func checkImportDeep(t *rapid.T, what string, archive []byte, height uint64, root common.Hash, wantDump string, deep *deepCheck) (accepted bool) {
 	s, db, err := importInto(archive, height, root)
 	if err != nil {
 		if ks := leftBehind(db); len(ks) != 0 {
@@ -324,6 +371,29 @@ func checkImport(t *rapid.T, what string, archive []byte, height uint64, root co
 	if got := stateDump(s); got != wantDump {
 		t.Fatalf("%s: import accepted but contents differ from the exported state:\n--- imported\n%s--- exported\n%s", what, got, wantDump)
 	}
+	if deep == nil {
+		return true
+	}
+	// the imported tree is the exported one: a new export is the original archive ...
+	var again bytes.Buffer
+	if r, err := s.WriteSnapshot2(height, &again); err != nil || r != root {
+		t.Fatalf("%s: import accepted, but the imported state cannot be exported again with the same root: %x, %v", what, r, err)
+	}
+	evid.Count("cont.reexports_compared")
+	if !bytes.Equal(again.Bytes(), deep.pristine) {
+		t.Fatalf("%s: import accepted with the advertised root and the exported records, but the imported tree is not the exported one: a new export of it is another archive; %s",
+			what, archiveDiff(again.Bytes(), deep.pristine))
+	}
+	// ... and the chain continues on it exactly as on the exporting node
+	ref, err := deep.ref()
+	if err != nil {
+		t.Fatalf("copy of the exporting state: %v", err)
+	}
+	if ref.Root() != root {
+		t.Fatalf("copy of the exporting state has root %x, exported %x", ref.Root(), root)
+	}
+	blocks := genContinuation(t, deep.leaves, deep.gaps)
+	continueBoth(t, what, ref, s, blocks)
 	return true
 }
 
@@ -333,7 +403,7 @@ func checkImport(t *rapid.T, what string, archive []byte, height uint64, root co
 func TestSnapshotRoundTripAndCorruption(t *testing.T) {
 	rapid.Check(t, func(t *rapid.T) {
 		evid.Eval()
-		src, height, desc := genState(t)
+		src, srcDb, height, desc := genStateDB(t)
 		var buf bytes.Buffer
 		root, err := src.WriteSnapshot2(height, &buf)
 		if err != nil {
@@ -344,7 +414,8 @@ func TestSnapshotRoundTripAndCorruption(t *testing.T) {
 		}
 		archive := buf.Bytes()
 		want := stateDump(src)
-		if !checkImport(t, "pristine archive", archive, height, root, want) {
+		deep := newDeepCheck(t, archive, func() (*state.StateDB, error) { return copyState(srcDb, height) })
+		if !checkImportDeep(t, "pristine archive", archive, height, root, want, deep) {
 			t.Fatalf("pristine archive refused (state %s)", desc)
 		}
 		evid.Count("b.roundtrip_ok")
@@ -356,8 +427,25 @@ func TestSnapshotRoundTripAndCorruption(t *testing.T) {
 		for i := 0; i < n; i++ {
 			evid.Eval()
 			c := append([]byte{}, archive...)
-			kind := rapid.SampledFrom([]string{"flip", "flip", "flip", "truncate", "truncate-block", "garbage", "drop-block", "dup-block", "zero-run"}).Draw(t, "corruption")
+			kind := rapid.SampledFrom([]string{"flip", "flip", "flip", "truncate", "truncate-block", "garbage", "drop-block", "dup-block", "zero-run", "inner-key", "inner-key", "inner-key", "node-field"}).Draw(t, "corruption")
+			label, dc := kind, deep
 			switch kind {
+			case "inner-key":
+				// structure-aware: the key of a drawn inner node (not covered by the tree hashes) is altered
+				altered, genuine, changed, how := alterInnerKey(t, archive)
+				if altered == nil {
+					evid.Count("c.inner-key.no_inner_node")
+					continue
+				}
+				c, label, dc = altered, kind+"."+how, deep.withGap(genuine, changed)
+				evid.Sample("inner-key", fmt.Sprintf("%s: %x -> %x", how, genuine, changed))
+			case "node-field":
+				// structure-aware: another field of a drawn node, or the node sequence itself
+				altered, how := alterNode(t, archive)
+				if altered == nil {
+					continue
+				}
+				c, label = altered, kind+"."+how
 			case "flip":
 				off := rapid.IntRange(0, len(c)-1).Draw(t, "off")
 				c[off] ^= byte(1 << uint(rapid.IntRange(0, 7).Draw(t, "bit")))
@@ -391,11 +479,14 @@ func TestSnapshotRoundTripAndCorruption(t *testing.T) {
 			if bytes.Equal(c, archive) {
 				continue
 			}
-			accepted := checkImport(t, "corrupted archive ("+kind+")", c, height, root, want)
+			accepted := checkImportDeep(t, "corrupted archive ("+label+")", c, height, root, want, dc)
 			if accepted {
-				evid.Count("c." + kind + ".accepted_with_exact_contents")
+				evid.Count("c." + label + ".accepted_with_exact_contents")
 			} else {
-				evid.Count("c." + kind + ".refused_clean")
+				evid.Count("c." + label + ".refused_clean")
+			}
+			if kind == "inner-key" {
+				evid.Count("c.inner-key.evaluated")
 			}
 			evid.NonTrivial(fmt.Sprintf("c|%s|%d|%v", kind, len(c), accepted))
 		}
@@ -432,10 +523,25 @@ func TestSnapshotOfHistoryState(t *testing.T) {
 		if err != nil {
 			t.Fatal(err)
 		}
-		if !checkImport(t, "history snapshot", buf.Bytes(), height, root, stateDump(ro)) {
+		deep := newDeepCheck(t, buf.Bytes(), func() (*state.StateDB, error) { return copyState(r.DB, height) })
+		if !checkImportDeep(t, "history snapshot", buf.Bytes(), height, root, stateDump(ro), deep) {
 			t.Fatalf("snapshot of a history state refused")
 		}
 		evid.Count("b.history_snapshot_ok")
+		// the same archive with altered keys of inner nodes: refused, or accepted as exactly the exported tree
+		for i := rapid.IntRange(1, 4).Draw(t, "innerKeyEdits"); i > 0; i-- {
+			altered, genuine, changed, how := alterInnerKey(t, buf.Bytes())
+			if altered == nil {
+				break
+			}
+			evid.Eval()
+			if checkImportDeep(t, "history snapshot with the key of an inner node altered ("+how+")", altered, height, root, stateDump(ro), deep.withGap(genuine, changed)) {
+				evid.Count("bh.inner-key." + how + ".accepted_with_exact_contents")
+			} else {
+				evid.Count("bh.inner-key." + how + ".refused_clean")
+			}
+			evid.Count("bh.inner-key.evaluated")
+		}
 		evid.NonTrivial("bh|" + h.Descriptor())
 	})
 }
